@@ -1,7 +1,262 @@
 import Mutagen.Driver.Util
+import Mutagen.Driver.Tree
+/-!
+Model side of the shared session-history stream (`harness/cmd/sessx`, served to
+the checks of C01–C05 as an extra stream).
+
+A case is a whole history of a real two-endpoint session (see
+`harness/sessx/history.go` for the grammar):
+
+```
+H <mode> <alpha0> <beta0> <step> …
+step := <kind>^<alpha edits>^<beta edits>^<obs alpha>^<obs beta>
+kind := n | f,<op>,<name> | c,<op>,<name>
+```
+or a request sent straight to a local endpoint:
+```
+EP <mode> <a|b> <tree> <stage|trans> <arg>
+```
+
+The model below is the *glue* around `Reconcile`, written to mirror
+`controller.synchronize` (pkg/synchronization/controller.go:849-1443) and the
+bookkeeping of `endpoint/local/endpoint.go` step by step:
+
+* one `cycle` = one iteration of the loop of `synchronize` triggered by a flush
+  request: scan (the two roots as they are), `oneEndpointEmptiedRoot`
+  (safety.go), `Reconcile`, the root-deletion / root-type-change halts
+  (safety.go, change.go), transitions of both endpoints, conversion of the
+  per-transition results into ancestor changes (1347-1365), the fold
+  `ancestorChanges ++ αChanges ++ βChanges` (1379-1380), the
+  `len(ancestorChanges) > 0` guard (1381), `Apply`, `EnsureValid(true)`, save;
+* a fault-free transition returns `New` for every change and leaves the root
+  as `Apply` of the changes; for a faulted or cancelled cycle the root after
+  the cycle is an input (observed), and the result reported for a transition
+  at path `p` is the content of the observed root at `p` — this is what
+  `core.Transition` promises (create/remove report exactly what they left) and
+  what C05 requires the archive to record;
+* the alpha endpoint of a one-way session is read-only (endpoint.go:211-213):
+  `Stage` / `Transition` fail, which ends the synchronization loop with an
+  error *after* the ancestor has been saved (1410-1415).
+-/
 namespace Mutagen.Driver.SESS
+open Mutagen.Driver Mutagen.Driver.Tree Mutagen.Model
+
+/-! ## safety.go -/
+
+/-- safety.go:10-38 `oneEndpointEmptiedRoot`. -/
+def oneEndpointEmptiedRoot (ancestor alpha beta : Option Entry) : Bool :=
+  if !isKind ancestor .directory then false
+  else if !isKind alpha .directory then false
+  else if !isKind beta .directory then false
+  else if (contents ancestor).length < 2 then false
+  else
+    let alphaEmptied := (contents alpha).length == 0
+    let betaEmptied := (contents beta).length == 0
+    (alphaEmptied || betaEmptied) && !(alphaEmptied && betaEmptied)
+
+/-- safety.go:42-53. -/
+def containsRootDeletion (cs : List Change) : Bool := cs.any (·.isRootDeletion)
+
+/-- safety.go:57-68. -/
+def containsRootTypeChange (cs : List Change) : Bool := cs.any (·.isRootTypeChange)
+
+/-! ## endpoint/local/endpoint.go (the part visible to the controller) -/
+
+/-- endpoint.go:207-213: `readOnly := alpha && unidirectional`. -/
+def readOnly (mode : Mode) (alpha : Bool) : Bool :=
+  alpha && (mode == .oneWaySafe || mode == .oneWayReplica)
+
+mutual
+/-- stage.go `stagingPathFinder.find`: does the entry contain a file? -/
+def hasFile : Entry → Bool
+  | .mk p cs => p.kind == .file || hasFileL cs
+def hasFileL : Contents → Bool
+  | [] => false
+  | (_, c) :: r => hasFile c || hasFileL r
+end
+
+/-- stage.go:44-66 `TransitionDependencies` returns at least one path. -/
+def needsStaging (ts : List Change) : Bool :=
+  ts.any fun t =>
+    let fileToFileSameContents :=
+      match t.old, t.new with
+      | some o, some n => o.kind == .file && n.kind == .file && o.props.digest == n.props.digest
+      | _, _ => false
+    !fileToFileSameContents && (match t.new with | some n => hasFile n | none => false)
+
+/-- What an endpoint's root looks like after its transition: predicted
+(`none`: every change applied exactly) or observed. -/
+abbrev Observed := Option (Option Entry)
+
+/-- `endpoint.Transition` as the controller sees it (endpoint.go:1280-1439):
+`none` = the call failed as a whole (read-only endpoint); otherwise the result
+entry for every transition, in order, and the root afterwards. -/
+def transition (ro : Bool) (root : Option Entry) (ts : List Change) (obs : Observed) :
+    Option (List (Option Entry) × Option Entry) :=
+  if ro then none
+  else match obs with
+    | none =>
+      match apply root (ts.map fun t => { path := t.path, new := t.new }) with
+      | .ok root' => some (ts.map (·.new), root')
+      | .error _ => some (ts.map (·.old), root)
+    | some o => some (ts.map fun t => getPath o t.path, o)
+
+/-! ## controller.synchronize -/
+
+structure State where
+  ancestor : Option Entry := none
+  alpha : Option Entry
+  beta : Option Entry
+
+inductive Kind' | normal | faulted | cancelled
+  deriving DecidableEq
+
+structure CycleResult where
+  state : State
+  conflicts : Option (List Path)   -- `none`: not reported (halted / cancelled / failed)
+  status : String
+  problems : String
+
+def showRoots : Option (List Path) → String
+  | none => "-"
+  | some [] => "-"
+  | some ps => ",".intercalate (sortStrings (ps.map showPath))
+
+def CycleResult.render (r : CycleResult) : String :=
+  showOEntry r.state.alpha ++ " " ++ showOEntry r.state.beta ++ " " ++ showOEntry r.state.ancestor ++ " " ++
+    showRoots r.conflicts ++ " " ++ r.status ++ " " ++ r.problems
+
+/-- One flush-triggered iteration of the loop of `synchronize`. -/
+def cycle (mode : Mode) (s : State) (kind : Kind') (obsA obsB : Observed) : CycleResult :=
+  let halted (st : String) : CycleResult := { state := s, conflicts := none, status := st, problems := "--" }
+  -- 1177-1182
+  if oneEndpointEmptiedRoot s.ancestor s.alpha s.beta then halted "halt-emptied"
+  else
+    -- 1186-1191
+    let plan := Reconcile s.ancestor s.alpha s.beta mode
+    -- 1231-1236
+    if containsRootDeletion plan.alpha || containsRootDeletion plan.beta then halted "halt-rootdel"
+    -- 1242-1247
+    else if containsRootTypeChange plan.alpha || containsRootTypeChange plan.beta then halted "halt-roottype"
+    else
+      -- 1253-1323: alpha.Stage / beta.Stage are called when files have to be provided; a read-only
+      -- endpoint refuses (endpoint.go:1157-1159) and the loop ends before anything is saved.
+      let stageFails :=
+        (needsStaging plan.alpha && readOnly mode true) || (needsStaging plan.beta && readOnly mode false)
+      if stageFails then { state := s, conflicts := none, status := "error", problems := "--" }
+      else
+        -- 1338-1368: transitions run only for endpoints with a non-empty list.
+        let αT := if plan.alpha.isEmpty then some ([], s.alpha) else transition (readOnly mode true) s.alpha plan.alpha obsA
+        let βT := if plan.beta.isEmpty then some ([], s.beta) else transition (readOnly mode false) s.beta plan.beta obsB
+        -- 1348-1352 / 1360-1364: results become ancestor changes unless the side failed as a whole.
+        let toChanges (ts : List Change) (r : Option (List (Option Entry) × Option Entry)) : List Change :=
+          match r with
+          | none => []
+          | some (results, _) => (ts.zip results).map fun (t, res) => { path := t.path, new := res }
+        let αChanges := toChanges plan.alpha αT
+        let βChanges := toChanges plan.beta βT
+        let alpha' := match αT with | some (_, r) => r | none => s.alpha
+        let beta' := match βT with | some (_, r) => r | none => s.beta
+        -- 1379-1380
+        let ancestorChanges := plan.anc ++ αChanges ++ βChanges
+        -- 1381-1408
+        let saved : Option (Option Entry) :=
+          if ancestorChanges.length > 0 then
+            match apply s.ancestor ancestorChanges with
+            | .error _ => none
+            | .ok a => if oensureValid true a then some a else none
+          else some s.ancestor
+        match saved with
+        | none => { state := { ancestor := s.ancestor, alpha := alpha', beta := beta' }, conflicts := none, status := "error", problems := "--" }
+        | some a =>
+          let st : State := { ancestor := a, alpha := alpha', beta := beta' }
+          -- 1411-1415
+          if αT.isNone || βT.isNone then { state := st, conflicts := none, status := "error", problems := "--" }
+          else match kind with
+            | .normal => { state := st, conflicts := some (plan.conflicts.map (·.root)), status := "run", problems := "00" }
+            | .faulted => { state := st, conflicts := some (plan.conflicts.map (·.root)), status := "run", problems := "--" }
+            | .cancelled => { state := st, conflicts := none, status := "cancelled", problems := "--" }
+
+/-! ## Parsing and the history loop -/
+
+def parseObserved (s : String) : Option Observed :=
+  if s == "-" then some none else (parseOEntry s).map some
+
+/-- The edit script of one root: `Apply` of `path ↦ entry` in order. -/
+def applyEdits (root : Option Entry) (field : String) : Option (Option Entry) := do
+  let cs ← parseChanges field
+  match apply root (cs.map fun c => { path := c.path, new := c.new }) with
+  | .ok r => some r
+  | .error _ => none
+
+structure StepIn where
+  kind : Kind'
+  editsA : String
+  editsB : String
+  obsA : Observed
+  obsB : Observed
+
+def parseStep (f : String) : Option StepIn :=
+  match f.splitOn "^" with
+  | [k, ea, eb, oa, ob] => do
+    let kind ← (if k == "n" then some Kind'.normal
+      else match k.splitOn "," with
+        | ["f", _, _] => some Kind'.faulted
+        | ["c", _, _] => some Kind'.cancelled
+        | _ => none)
+    let obsA ← parseObserved oa
+    let obsB ← parseObserved ob
+    -- observed roots are given exactly for faulted and cancelled cycles
+    if (kind == .normal) != (obsA.isNone && obsB.isNone) then none
+    else if kind != .normal && (obsA.isNone || obsB.isNone) then none
+    else some { kind, editsA := ea, editsB := eb, obsA, obsB }
+  | _ => none
+
+def runHistory (mode : Mode) : State → List StepIn → List String → Option (List String)
+  | _, [], acc => some acc.reverse
+  | s, st :: rest, acc => do
+    let alpha ← applyEdits s.alpha st.editsA
+    let beta ← applyEdits s.beta st.editsB
+    let r := cycle mode { s with alpha, beta } st.kind st.obsA st.obsB
+    runHistory mode r.state rest (r.render :: acc)
+
+def handleHistory : List String → String
+  | m :: a0 :: b0 :: steps =>
+    match parseMode m, parseOEntry a0, parseOEntry b0, steps.mapM parseStep with
+    | some mode, some alpha, some beta, some steps =>
+      match runHistory mode { alpha, beta } steps [] with
+      | some out => " | ".intercalate out
+      | none => "bad-op"
+    | _, _, _, _ => "bad-op"
+  | _ => "bad-op"
+
+/-- endpoint.go:1155-1159 / 1280-1284 for a freshly scanned endpoint. -/
+def handleEndpoint : List String → String
+  | [m, which, tree, op, arg] =>
+    match parseMode m, parseOEntry tree with
+    | some mode, some root =>
+      if which != "a" && which != "b" then "bad-op"
+      else
+        let ro := readOnly mode (which == "a")
+        if op == "stage" then
+          if arg.toNat?.isNone then "bad-op"
+          else if ro then "refused " ++ showOEntry root else "ok " ++ showOEntry root
+        else if op == "trans" then
+          match parseChange arg with
+          | none => "bad-op"
+          | some ch =>
+            match transition ro root [ch] none with
+            | none => "refused " ++ showOEntry root
+            | some (_, root') => "ok " ++ showOEntry root'
+        else "bad-op"
+    | _, _ => "bad-op"
+  | _ => "bad-op"
 
 /-- Model-side handler for one line of the shared session-history stream (`harness/cmd/sessx`). -/
-def handle (_line : String) : String := "unimplemented"
+def handle (line : String) : String :=
+  match fields line with
+  | "H" :: rest => handleHistory rest
+  | "EP" :: rest => handleEndpoint rest
+  | _ => "bad-op"
 
 end Mutagen.Driver.SESS
